@@ -24,7 +24,7 @@ RULE = ("hypothesis-generated values (derandomised from the seed) from the lossl
 ASSUMPTIONS = ["ints bounded by CPython's int<->str digit limit", "datetimes: naive, whole milliseconds, TZ=UTC",
                "values a serializer refuses are only required to be refused on every path alike"]
 REQUIRED_REACH = ["wire_slow_link_cases", "decimal_uuid_text_checked", "shards_with_one_sided_replacements", "huge_int_cases", "concurrent_wire_calls", "shards_with_serpent_bytes_repr", "codec_core_ok", "codec_ext_ok", "wire_ok", "wire_batch_ok", "wire_stream_ok", "wire_compressed_request", "wire_compressed_reply", "wire_with_annotations", "codec_memoryview_same"]
-SHARD_TIMEOUT = {"quick": 220, "thorough": 2400}
+SHARD_TIMEOUT = {"quick": 480, "thorough": 2400}
 RAISED = object()
 
 
